@@ -124,7 +124,7 @@ pub fn replay(args: &[String]) {
         let mut stats = crate::props::cost::CostStats::default();
         for op in r["ops"].as_array().cloned().unwrap_or_default() {
             let p = op["parser"].as_u64().unwrap_or(0) as usize;
-            if op.get("evict").is_some() || op.get("rekey").is_some() {
+            if op.get("evict").is_some() || op.get("rekey").is_some() || op.get("persist").is_some() {
                 continue;
             }
             if let Some(a) = op.get("allowed") {
@@ -152,6 +152,18 @@ pub fn replay(args: &[String]) {
                 sut.parsers[p].allowed_versions = (0..=65535u16).collect();
             }
             println!("parser {}: application assigns allowed_versions = {}", p, a);
+            continue;
+        }
+        if let Some(e) = op.get("persist") {
+            if e.as_str() == Some("snapshot") {
+                sut.snapshot(p);
+                println!("parser {}: application keeps a copy of the four cache maps", p);
+            } else {
+                sut.restore(p);
+                println!("parser {}: application merges the kept copy back into the maps (absent keys only)", p);
+            }
+            let s = crate::observe::snap(&sut.parsers[p]);
+            println!("  caches: v9.templates={:?} v9.options={:?} ipfix.templates={:?} ipfix.options={:?}", s.v9_t.keys().collect::<Vec<_>>(), s.v9_o.keys().collect::<Vec<_>>(), s.ix_t.keys().collect::<Vec<_>>(), s.ix_o.keys().collect::<Vec<_>>());
             continue;
         }
         if let Some(e) = op.get("rekey") {
